@@ -135,15 +135,7 @@ def run(rep, tier, seed, keep=False):
         parent['shared'] = [1, 2, 3]
         base_snap = snap_chain(parent)
         # a host may also assemble its context by hand (no '#finalize' / '#iter' in the chain): it must stay as it is, too
-        from yaql.language import contexts as _ctxs
-        from yaql.standard_library import (boolean as _b, branching as _br, collections as _c, common as _cm, math as _m, queries as _q,
-                                           regex as _r, strings as _s, system as _sy)
-        hand = _ctxs.Context()
-        for _mod in (_sy, _cm, _b, _s, _m, _c, _q, _r, _br):
-            try:
-                _mod.register(hand)
-            except TypeError:
-                _mod.register(hand, False)
+        hand = hand_context()
         hand['shared'] = [1, 2, 3]
         hand_snap = snap_chain(hand)
         datas = [[3, 1, 2], [1, 2, 3, 4], [2, 2, 5]]
@@ -322,6 +314,20 @@ def run(rep, tier, seed, keep=False):
             rec.uninstall()
         if not keep:
             tlc.cleanup(wd)
+
+
+def hand_context():
+    """a context assembled by the host itself from the library's register() functions: no '#finalize' / '#iter' in the chain"""
+    from yaql.language import contexts as _ctxs
+    from yaql.standard_library import (boolean as _b, branching as _br, collections as _c, common as _cm, math as _m, queries as _q,
+                                       regex as _r, strings as _s, system as _sy)
+    hand = _ctxs.Context()
+    for _mod in (_sy, _cm, _b, _s, _m, _c, _q, _r, _br):
+        try:
+            _mod.register(hand)
+        except TypeError:
+            _mod.register(hand, False)
+    return hand
 
 
 def validate_purity(rep, wd, events, label):
